@@ -12,6 +12,17 @@ func init() {
 	vRegister("K7_footer", K7_footer)
 }
 
+var vLongTerm = func() string {
+	// (incompressible, so that the snappy-compressed chunk stays above 128 bytes; no 0xff separator byte)
+	b := make([]byte, 200)
+	x := uint32(12345)
+	for i := range b {
+		x = x*1103515245 + 12345
+		b[i] = byte(x>>16) % 251
+	}
+	return string(b)
+}()
+
 func vStdCfg(prefix, idBase string, nDocs int, wide int) gCfg {
 	if vParam("comp", 0) == 1 {
 		// the second field is a composite field whose locations name the (always present) first field
@@ -19,6 +30,14 @@ func vStdCfg(prefix, idBase string, nDocs int, wide int) gCfg {
 			fields: []gField{
 				{name: "f", terms: []string{""}, tv: true, maxLocs: 1, dv: true, store: true, always: true},
 				{name: "c", terms: []string{"é"}, tv: true, maxLocs: 2, fixLocs: true, comp: true, locFields: []string{"f", ""}, noTVOpt: true},
+			}}
+	}
+	if vParam("longTerm", 0) == 1 {
+		// an incompressible doc-value term of 200 bytes: chunk data of 128 bytes and more (two-byte varints in the chunk tables)
+		return gCfg{prefix: prefix, idBase: idBase, nDocs: nDocs, wide: wide, maxAP: 1, idDV: true,
+			fields: []gField{
+				{name: "f", terms: []string{""}, tv: true, maxLocs: 1, dv: true, store: true},
+				{name: "g", terms: []string{vLongTerm}, dv: true},
 			}}
 	}
 	if vParam("lite", 0) == 1 {
